@@ -4,7 +4,7 @@ M-Migrator (C23): `veryl migrate`'s text reconstruction.
 
 Modelled line by line from /repo/crates/migrator/src/migrator.rs:
   `Migrator::push_token`   -> `pushToken`  (spacing from the token's (line, column); the column is
-                              advanced by the BYTE length of the text after its last line feed)
+                              advanced by the number of CHARACTERS of the text after its last line feed)
   `Migrator::token`        -> a `VerylToken` is flattened into its token followed by its comments
   `VerylWalker for Migrator` -> every token in tree order, except that `for_statement` does not
                               visit `colon` and `scalar_type`: `keep = false` marks exactly the tokens
@@ -57,13 +57,15 @@ def pushSep (nl : Text) (s : St) (x : MTok) : Text :=
 ```
 let newlines_in_text = text.matches('\n').count() as u32;
 self.line += newlines_in_text;
-let len = text.len() - text.rfind('\n').map(|x| x + 1).unwrap_or(0);
-if newlines_in_text > 0 { self.column = 1; } else { self.column += len as u32; }
+// Token columns count characters, so the tracked column must too.
+let len = text[text.rfind('\n').map(|x| x + 1).unwrap_or(0)..].chars().count();
+if newlines_in_text > 0 { self.column = 1 + len as u32; } else { self.column += len as u32; }
 ```
-(`column` here is the value after `self.column += spaces`). -/
+(`column` here is the value after `self.column += spaces`; `text[rfind + 1 ..]`, or all of the text
+if it has no line feed, is `lastSeg text`). -/
 def colAfterCoded (column : Nat) (text : Text) : Nat :=
-  let len := utf8Len text - (match rfindNl text with | some i => i + 1 | none => 0)
-  if countNl text > 0 then 1 else column + len
+  let len := (lastSeg text).length
+  if countNl text > 0 then 1 + len else column + len
 
 /-- `push_token` with the column update as a parameter. -/
 def pushTokenWith (colAfter : Nat → Text → Nat) (nl : Text) (s : St) (x : MTok) : St :=
@@ -89,19 +91,17 @@ def migrate (raw : Text) (toks : List MTok) : Text := migrateWith colAfterCoded 
 def shouldMigrate (migratable : Bool) (newParserAccepts : Bool) : Bool :=
   if newParserAccepts then migratable else true
 
-/-! ### Repaired column tracking (characters, and the true column after a multi-line text)
+/-! ### Column tracking before the repair (kept to document the defect; see Props/C23 `old_*`)
 
 ```
--        let len = text.len() - text.rfind('\n').map(|x| x + 1).unwrap_or(0);
-+        let len = text[text.rfind('\n').map(|x| x + 1).unwrap_or(0)..].chars().count();
-         if newlines_in_text > 0 {
--            self.column = 1;
-+            self.column = 1 + len as u32;
+let len = text.len() - text.rfind('\n').map(|x| x + 1).unwrap_or(0);     // BYTES
+if newlines_in_text > 0 { self.column = 1; } else { self.column += len as u32; }
 ```
 -/
-def colAfterFixed (column : Nat) (text : Text) : Nat :=
-  if countNl text > 0 then 1 + (lastSeg text).length else column + text.length
+def colAfterOld (column : Nat) (text : Text) : Nat :=
+  let len := utf8Len text - (match rfindNl text with | some i => i + 1 | none => 0)
+  if countNl text > 0 then 1 else column + len
 
-def migrateFixed (raw : Text) (toks : List MTok) : Text := migrateWith colAfterFixed (detectNl raw) toks
+def migrateOld (raw : Text) (toks : List MTok) : Text := migrateWith colAfterOld (detectNl raw) toks
 
 end VerylModel.Migrator
